@@ -50,10 +50,12 @@ StdTraits == <<"Debug", "Clone", "Copy", "PartialEq", "Eq", "PartialOrd", "Ord",
                "AsRef", "Deref", "Borrow", "Into", "Display", "FromStr", "Default",
                "Serialize", "Deserialize">>
 
-Decl(ty, san, vmode, val, dflt) ==
+DeclC(conv, ty, san, vmode, val, dflt) ==
   [fam |-> "int", ty |-> ty, san |-> san, vmode |-> vmode, val |-> val,
-   traits |-> StdTraits \o (IF vmode = "none" THEN <<"From">> ELSE <<"TryFrom">>),
+   traits |-> StdTraits \o (IF vmode = "none" /\ conv = "From" THEN <<"From">> ELSE <<"TryFrom">>),
    dflt |-> dflt]
+Decl(ty, san, vmode, val, dflt) == DeclC("From", ty, san, vmode, val, dflt)
+
 
 CustomVals == {<<[k |-> "custom", b |-> 0, fn |-> "pos", p |-> <<>>, sp |-> "lit"]>>}
 
@@ -69,6 +71,7 @@ DeclSpace ==
   UNION {
     UNION {{Decl(ty, san, "std", val, dflt) : san \in g[2], val \in Perms(g[1]), dflt \in Defaults(ty)} : g \in Guards(ty)}
     \cup {Decl(ty, san, "none", <<>>, dflt) : san \in AllSans(ty), dflt \in Defaults(ty)}
+    \cup {DeclC("TryFrom", ty, san, "none", <<>>, dflt) : san \in AllSans(ty), dflt \in Defaults(ty)}
     \cup {Decl(ty, san, "custom", val, dflt) : san \in AllSans(ty), val \in CustomVals, dflt \in Defaults(ty)}
   : ty \in Types}
 
@@ -85,7 +88,7 @@ MCInputsOf(d, e) ==
   ELSE {In(x) : x \in Near(d) \cap Dom(d.ty)} \cup (IF e \in {"parse", "deser"} THEN {InFail} ELSE {})
 
 MCEpsOf(d) ==
-  {CtorName(d), "default", "parse", "deser"} \cup (IF d.vmode = "none" THEN {"from"} ELSE {"try_from"})
+  {CtorName(d), "default", "parse", "deser"} \cup (IF NInSeq("From", d.traits) THEN {"from"} ELSE {"try_from"})
 
 MCPrim(n, x, env) == x     \* no string primitives in the integer family
 
